@@ -620,16 +620,25 @@ impl Check for C03 {
         known: &KnownFindings,
     ) {
         let mut rng = Rng::new(mix(seed, "C03", index));
-        let class = gen::gen_class(&mut rng);
+        let class = gen::gen_class_with_huge(&mut rng);
         let greeting = if rng.chance(1, 8) {
             gen::valid_greeting(&gen::gen_version(&mut rng))
         } else {
             gen::default_greeting()
         };
-        let session = gen::gen_session(&mut rng, class);
+        let long = rng.chance(1, 80);
+        let session = if long {
+            ctx.counters.bump("long_history_sessions");
+            gen::gen_long_session(&mut rng)
+        } else {
+            gen::gen_session(&mut rng, class)
+        };
         let enc = gen::encode_session(&greeting, &session);
         let body = &enc.bytes[enc.greeting_len..];
         ctx.counters.bump(&format!("class.{:?}", class));
+        if class == SizeClass::Huge {
+            ctx.counters.bump("huge_payload_streams");
+        }
         ctx.counters.add("responses", session.len() as u64);
         if enc.bytes.len() > 4096 {
             ctx.counters.bump("stream_crosses_4096");
@@ -722,7 +731,13 @@ impl Check for C03 {
         wire_components()
     }
     fn probes(&self) -> Vec<&'static str> {
-        vec!["stream_crosses_4096", "stream_crosses_16384", "with_binary"]
+        vec![
+            "stream_crosses_4096",
+            "stream_crosses_16384",
+            "with_binary",
+            "long_history_sessions",
+            "huge_payload_streams",
+        ]
     }
 }
 
@@ -1131,13 +1146,18 @@ impl Check for C02 {
         known: &KnownFindings,
     ) {
         let mut rng = Rng::new(mix(seed, "C02", index));
-        let class = gen::gen_class(&mut rng);
+        let class = gen::gen_class_with_huge(&mut rng);
         let greeting = gen::default_greeting();
         // stream kinds: well-formed, truncated, corrupted, raw soup
         let source = match rng.below(10) {
             0..=3 => Source::Session {
                 greeting: greeting.clone(),
-                session: gen::gen_session(&mut rng, class),
+                session: if rng.chance(1, 60) {
+                    ctx.counters.bump("long_history_sessions");
+                    gen::gen_long_session(&mut rng)
+                } else {
+                    gen::gen_session(&mut rng, class)
+                },
                 cut: None,
                 fault: None,
             },
